@@ -23,6 +23,8 @@ def load_mutants():
         mp = os.path.join(sd, d, 'meta.json')
         if os.path.exists(mp):
             meta = json.load(open(mp))
+            if meta.get('not_decided'):
+                continue      # kept for the record: breaks a clause this family does not decide (stated in DESIGN.md), no check is expected to fire
             keys = [k.split('|')[0] for k in meta.get('checks', {}).get(meta['property'], {}).get('violation_keys', [])][:1]
             muts.append({'id': 'seed-' + d, 'props': [meta['property']], 'expect': 'fire', 'keys': keys, 'patch': os.path.join(sd, d, 'patch.diff'), 'base_files': meta.get('base_files') or {}})
     return muts
